@@ -16,6 +16,12 @@
 //   HISTORIES: one matrix / forward+back projector / ProjectorByBinPairUsingProjMatrixByBin / on-the-fly projector object
 //   set_up in turn for several image grids and projection-data geometries (run_history), compared after every set_up with
 //   fresh objects, with the model (MatrixObj state machine; projections from the rows of a fresh matrix) and with each other.
+//   FIELD OF VIEW x SYMMETRIES x RAYS (run_fov_cross_product): on small fixed worlds the full cross product {cylindrical,
+//   square field of view} x {32 symmetry settings} x {1, 2, 3 tangential rays} x {detector boundaries off, on} of the
+//   ray-tracing matrix, all views: every row against the geometry of its LOR (GeoOracle: non-empty, row sum = chord, column
+//   sums = 2D lengths - independent of any projector), against the row without symmetries, and (1 ray, non-TOF) forward
+//   projection through the matrix against the on-the-fly projector for every symmetry setting; the end points of every ray
+//   go to the model (sqchord / cylchord).  The geometry oracle also runs on the rows of every setting of the random worlds.
 //
 // Usage: c04_projectors <seed> <quick|thorough> <opsfile> <implfile>
 //   <opsfile>  one operation per line (protocol: see lean/Driver/C04.lean); the explicit matrix rows (hex floats), the
@@ -41,6 +47,9 @@
 #include "stir/RelatedViewgrams.h"
 #include "stir/Viewgram.h"
 #include "stir/ExamInfo.h"
+#include "stir/ProjDataInfoCylindricalNoArcCorr.h"
+#include "stir/LORCoordinates.h"
+#include "stir/TOF_conversions.h"
 #include <array>
 #include <map>
 #include <set>
@@ -604,6 +613,424 @@ get_row(const ProjMatrixByBin& pm, const Bin& b)
   return out;
 }
 
+// ------------------------------------------------------------------------------------------------ rows against geometry
+
+// INDEPENDENT oracle on the rows of ProjMatrixByBinUsingRayTracing (it uses neither the on-the-fly projector nor another
+// matrix): the LOR of a bin is the line X = s cos(phi) + a sin(phi), Y = s sin(phi) - a cos(phi); its part inside the
+// transaxial field of view (the cylinder of radius R or the square |X|,|Y| <= R, R = the largest centred extent of the
+// image grid) - the chord - is cut into the pieces lying in the voxel columns (y,x) by the harness' own 2D tracer (sorted
+// crossings of the lines X = (i+1/2) vx, Y = (j+1/2) vy).  What ray tracing has to deliver, whatever the z bookkeeping
+// (several rays per axial position, overlap weights of direct planes), is
+//     sum over z of row[z][y][x]  =  length of the LOR in column (y,x) / (cos(theta) voxel_size.x),
+// averaged over the num_tangential_LORs rays of the bin.  RayTraceVoxelsOnCartesianGrid by design traces the voxel that
+// contains an end point of the chord from the face through which the ray enters it to the face through which it leaves
+// it (`we should use a=0 if we want to start from start_point and not from the left edge of the voxel`), so the two END
+// columns get between their part of the chord and their full traversal (the full traversal exactly in a direct plane,
+// where no z face intervenes); every other column gets exactly its part of the chord.  In particular a bin whose LOR
+// crosses the field of view has a non-empty row whose sum lies between chord / (cos(theta) voxel_size.x) and that plus the
+// rest of the two end voxels.  TOF: the sum over the timing positions of the rows is the non-TOF row times the coverage
+// 1/2 sum_k [erf((high_k - d)/(sqrt2 sigma)) - erf((low_k - d)/(sqrt2 sigma))] of the voxel (d = position of the voxel
+// centre along the LOR); the bounds are multiplied with the smallest and the largest coverage over the planes of the row.
+struct LoHi
+{
+  double lo = 0, hi = 0;
+};
+typedef std::map<std::pair<int, int>, LoHi> ColMap; // (y, x) -> bounds of the sum over z, in the units of the matrix
+
+// does the matrix use the detector pairs of the bin (use_actual_detector_boundaries after set_up)?
+static bool
+actual_boundaries_in_use(const World& w, bool requested)
+{
+  if (w.blocks)
+    return true;
+  if (!requested)
+    return false;
+  const ProjDataInfoCylindricalNoArcCorr* p = dynamic_cast<const ProjDataInfoCylindricalNoArcCorr*>(w.pdi.get());
+  if (!p || p->get_view_mashing_factor() != 1)
+    return false;
+  for (int s = w.minSeg; s <= w.maxSeg; ++s)
+    if (p->get_min_ring_difference(s) != p->get_max_ring_difference(s))
+      return false;
+  return true;
+}
+
+struct GeoOracle
+{
+  const World& w;
+  int ntl;
+  bool cylfov, actual_now;
+  double fov = 0;
+  std::vector<ColMap> exp;   // by the index of the bin with the first timing position
+  std::vector<double> slack; // extra room for the row sum when an end point of the chord lies on a voxel boundary
+  std::vector<char> degen;   // a ray runs along a voxel boundary or ends on one: columns not compared
+  double sigma = 0;          // TOF
+  bool tof = false;
+  bool emit_ops;             // send every ray to the model (ops sqchord / cylchord)
+  GeoOracle(const World& w_, int ntl_, bool cylfov_, bool actual_requested, bool emit_ops_ = false)
+      : w(w_),
+        ntl(ntl_),
+        cylfov(cylfov_),
+        actual_now(actual_boundaries_in_use(w_, actual_requested)),
+        emit_ops(emit_ops_)
+  {
+    build();
+  }
+
+  // The end points of one ray for the model (lean: squareChord / cylChordSq, the transcription of ray_trace_one_lor):
+  // the operation carries the numbers this oracle works with, the answer is this oracle's own (slab clipping / Pythagoras).
+  void emit_ray(double s, double cphi, double sphi, double vx) const
+  {
+    char op[256], ans[128];
+    if (cylfov)
+      {
+        std::snprintf(op, sizeof op, "cylchord %a %a", fov, s);
+        if (std::fabs(s) > fov)
+          std::snprintf(ans, sizeof ans, "none");
+        else
+          std::snprintf(ans, sizeof ans, "some %a", fov * fov - s * s);
+      }
+    else
+      {
+        std::snprintf(op, sizeof op, "sqchord %a %a %a %a %a", fov, s, cphi, sphi, vx);
+        if (std::fabs(cphi) < 1e-3 || std::fabs(sphi) < 1e-3)
+          { // a view at a multiple of 90 degrees: the LOR is parallel to two edges of the square
+            if (fov < std::fabs(s))
+              std::snprintf(ans, sizeof ans, "none");
+            else
+              std::snprintf(ans, sizeof ans, "some %a %a", -fov, fov);
+          }
+        else
+          {
+            double lo = -1e300, hi = 1e300;
+            const double p0[2] = { s * cphi, s * sphi }, dir[2] = { sphi, -cphi };
+            for (int c = 0; c < 2; ++c)
+              {
+                double a0 = (-fov - p0[c]) / dir[c], a1 = (fov - p0[c]) / dir[c];
+                if (a0 > a1)
+                  std::swap(a0, a1);
+                lo = std::max(lo, a0);
+                hi = std::min(hi, a1);
+              }
+            std::snprintf(ans, sizeof ans, "%s %a %a", lo > hi - 1e-3 * vx ? "none" : "some", lo, hi);
+          }
+      }
+    emit(op, ans);
+    g_counts["rays_sent_to_the_model"]++;
+  }
+
+  // s and phi of the central ray of the bin, as the matrix defines them
+  void s_phi(int seg, int view, int ax, int tang, double& s, double& phi) const
+  {
+    const Bin bin(seg, view, ax, tang);
+    s = w.pdi->get_s(bin);
+    phi = w.pdi->get_phi(bin);
+    if (actual_now && !w.blocks)
+      {
+        const ProjDataInfoCylindricalNoArcCorr& p = dynamic_cast<const ProjDataInfoCylindricalNoArcCorr&>(*w.pdi);
+        const int N = w.pdi->get_scanner_ptr()->get_num_detectors_per_ring();
+        const double rr = w.pdi->get_scanner_ptr()->get_effective_ring_radius();
+        int d1 = 0, d2 = 0;
+        p.get_det_num_pair_for_view_tangential_pos_num(d1, d2, view, tang);
+        // the line through the centres of the two crystals
+        double ph = (d1 + d2) * M_PI / N - M_PI / 2 + p.get_azimuthal_angle_offset();
+        double ss = rr * std::sin((d1 - d2) * M_PI / N + M_PI / 2);
+        if (ph - phi > M_PI / 2)
+          {
+            ph -= M_PI;
+            ss = -ss;
+          }
+        else if (ph - phi < -M_PI / 2)
+          {
+            ph += M_PI;
+            ss = -ss;
+          }
+        s = ss;
+        phi = ph;
+      }
+  }
+
+  // the part [amin, amax] of the line inside the field of view; false if it misses it
+  bool chord(double s, double cphi, double sphi, double& amin, double& amax) const
+  {
+    if (cylfov)
+      {
+        if (std::fabs(s) >= fov)
+          return false;
+        amax = std::sqrt(fov * fov - s * s);
+        amin = -amax;
+        return true;
+      }
+    // slab clipping of the line against |X| <= fov and |Y| <= fov
+    amin = -1e30;
+    amax = 1e30;
+    const double p0[2] = { s * cphi, s * sphi }, dir[2] = { sphi, -cphi };
+    for (int c = 0; c < 2; ++c)
+      {
+        if (std::fabs(dir[c]) < 1e-9)
+          {
+            if (std::fabs(p0[c]) > fov)
+              return false;
+            continue;
+          }
+        double a0 = (-fov - p0[c]) / dir[c], a1 = (fov - p0[c]) / dir[c];
+        if (a0 > a1)
+          std::swap(a0, a1);
+        amin = std::max(amin, a0);
+        amax = std::min(amax, a1);
+      }
+    return amax > amin;
+  }
+
+  void trace(double s, double phi, double weight, bool direct_plane, ColMap& cols, bool& degenerate, double& slack_v) const
+  {
+    const CartesianCoordinate3D<float> vs = w.image->get_voxel_size();
+    const double cphi = std::cos(phi), sphi = std::sin(phi), vx = vs.x(), vy = vs.y();
+    double amin, amax;
+    if (emit_ops)
+      emit_ray(s, cphi, sphi, vx);
+    if (!chord(s, cphi, sphi, amin, amax))
+      return;
+    // a ray along a column boundary: which column gets it is a matter of rounding
+    if (std::fabs(sphi) < 1e-3)
+      {
+        const double f = s * cphi / vx + 0.5;
+        if (std::fabs(f - std::floor(f + 0.5)) < 2e-3)
+          degenerate = true;
+      }
+    if (std::fabs(cphi) < 1e-3)
+      {
+        const double f = s * sphi / vy + 0.5;
+        if (std::fabs(f - std::floor(f + 0.5)) < 2e-3)
+          degenerate = true;
+      }
+    // an end point of the chord on (to rounding) a voxel boundary: which voxel is the end voxel is a matter of rounding
+    bool end_on_boundary = false;
+    for (int e = 0; e < 2; ++e)
+      {
+        const double a = e ? amax : amin;
+        const double fx = (s * cphi + a * sphi) / vx + 0.5, fy = (s * sphi - a * cphi) / vy + 0.5;
+        if (std::fabs(fx - std::floor(fx + 0.5)) < 2e-3 || std::fabs(fy - std::floor(fy + 0.5)) < 2e-3)
+          {
+            degenerate = true;
+            end_on_boundary = true;
+            slack_v += weight * 1.5 * std::max(vx, vy);
+          }
+      }
+    // all crossings of column boundaries (also beyond the chord: the end voxels are traced from face to face)
+    std::vector<double> all;
+    if (std::fabs(sphi) > 1e-9)
+      for (int i = w.xmin - 3; i <= w.xmax + 2; ++i)
+        all.push_back(((i + 0.5) * vx - s * cphi) / sphi);
+    if (std::fabs(cphi) > 1e-9)
+      for (int j = w.ymin - 3; j <= w.ymax + 2; ++j)
+        all.push_back((s * sphi - (j + 0.5) * vy) / cphi);
+    std::sort(all.begin(), all.end());
+    double a_prev = amin, a_next = amax;
+    std::vector<double> cuts = { amin };
+    for (double a : all)
+      {
+        if (a <= amin)
+          a_prev = a; // the last one wins
+        else if (a < amax)
+          cuts.push_back(a);
+        else if (a_next == amax && a >= amax)
+          a_next = a;
+      }
+    if (all.empty() || all.front() > amin)
+      a_prev = amin;
+    cuts.push_back(amax);
+    for (std::size_t i = 0; i + 1 < cuts.size(); ++i)
+      {
+        const double len = cuts[i + 1] - cuts[i];
+        const double am = 0.5 * (cuts[i] + cuts[i + 1]);
+        const int x = (int)std::floor((s * cphi + am * sphi) / vx + 0.5), y = (int)std::floor((s * sphi - am * cphi) / vy + 0.5);
+        double ext = 0;
+        if (i == 0)
+          ext += amin - a_prev;
+        if (i + 2 == cuts.size())
+          ext += a_next - amax;
+        LoHi& c = cols[std::make_pair(y, x)];
+        c.lo += weight * (len + (direct_plane && !end_on_boundary ? ext : 0.));
+        c.hi += weight * (len + ext);
+      }
+  }
+
+  void build()
+  {
+    const CartesianCoordinate3D<float> vs = w.image->get_voxel_size();
+    const double shrink = w.blocks ? 5. : 0.; // the matrix keeps 5 voxels clear of the border for block scanners
+    fov = std::min((std::min(w.xmax, -w.xmin) - shrink) * (double)vs.x(), (std::min(w.ymax, -w.ymin) - shrink) * (double)vs.y());
+    exp.assign(w.nbins, ColMap());
+    slack.assign(w.nbins, 0.);
+    degen.assign(w.nbins, 0);
+    tof = w.pdi->is_tof_data();
+    if (tof)
+      sigma = tof_delta_time_to_mm(w.pdi->get_scanner_ptr()->get_timing_resolution()) / 2.355;
+    for (int seg = w.minSeg; seg <= w.maxSeg; ++seg)
+      for (int v = w.minView; v <= w.maxView; ++v)
+        for (int a = w.aMin(seg); a <= w.aMax(seg); ++a)
+          for (int t = w.minT; t <= w.maxT; ++t)
+            {
+              const Bin bin(seg, v, a, t);
+              double s, phi;
+              s_phi(seg, v, a, t, s, phi);
+              const double tanth = w.pdi->get_tantheta(bin), costh = 1 / std::sqrt(1 + tanth * tanth);
+              const double s_inc = (actual_now ? 2 : 1) * (double)w.pdi->get_sampling_in_s(bin) / ntl;
+              const int i = w.idx(seg, v, w.minK, a, t);
+              bool dg = false;
+              for (int j = 0; j < ntl; ++j)
+                trace(s - s_inc * (ntl - 1) / 2. + j * s_inc, phi, 1. / (ntl * costh * vs.x()), tanth == 0, exp[i], dg, slack[i]);
+              degen[i] = dg;
+            }
+  }
+
+  // coverage of voxel c by the timing positions of the data, for the LOR of `bin`
+  double coverage(const Bin& bin, const CartesianCoordinate3D<float>& mid, const CartesianCoordinate3D<float>& u, int z, int y, int x) const
+  {
+    const CartesianCoordinate3D<float> ph
+        = w.image->get_physical_coordinates_for_indices(BasicCoordinate<3, int>(Coordinate3D<int>(z, y, x)));
+    const double d = -((ph.z() - mid.z()) * (double)u.z() + (ph.y() - mid.y()) * (double)u.y() + (ph.x() - mid.x()) * (double)u.x());
+    double c = 0;
+    for (int k = w.minK; k <= w.maxK; ++k)
+      c += 0.5
+           * (std::erf((w.pdi->tof_bin_boundaries_mm[k].high_lim - d) / (std::sqrt(2.) * sigma))
+              - std::erf((w.pdi->tof_bin_boundaries_mm[k].low_lim - d) / (std::sqrt(2.) * sigma)));
+    return c;
+  }
+
+  struct Verdict
+  {
+    long bins = 0, crossing = 0, empty = 0, sum_bad = 0, col_bad = 0, not_compared = 0;
+    std::set<int> views_with_empty_rows;
+    double worst_sum = 0, worst_col = 0;
+    std::string first;
+  };
+
+  // all rows of `pm` (set up for w) against the geometry
+  Verdict check(const ProjMatrixByBin& pm) const
+  {
+    Verdict V;
+    char buf[448];
+    for (int seg = w.minSeg; seg <= w.maxSeg; ++seg)
+      for (int v = w.minView; v <= w.maxView; ++v)
+        for (int a = w.aMin(seg); a <= w.aMax(seg); ++a)
+          for (int t = w.minT; t <= w.maxT; ++t)
+            {
+              const int i = w.idx(seg, v, w.minK, a, t);
+              ++V.bins;
+              std::map<std::pair<int, int>, double> got;
+              std::map<std::pair<int, int>, std::set<int>> zs;
+              std::set<int> allz;
+              double sum = 0;
+              for (int k = w.minK; k <= w.maxK; ++k)
+                for (auto& e : get_row(pm, Bin(seg, v, a, t, k)))
+                  {
+                    got[std::make_pair(e.first[1], e.first[2])] += e.second;
+                    allz.insert(e.first[0]);
+                    sum += e.second;
+                  }
+              if (allz.empty())
+                for (int z = w.zmin; z <= w.zmax; ++z)
+                  allz.insert(z);
+              // bounds per column
+              double lo_tot = 0, hi_tot = 0, dev = 0;
+              CartesianCoordinate3D<float> mid, u;
+              const Bin bin(seg, v, a, t, 0);
+              if (tof)
+                {
+                  LORInAxialAndNoArcCorrSinogramCoordinates<float> lor;
+                  w.pdi->get_LOR(lor, bin);
+                  const LORAs2Points<float> l2(lor);
+                  mid = (l2.p1() + l2.p2()) * 0.5F;
+                  const CartesianCoordinate3D<float> df = l2.p2() - mid;
+                  u = df / static_cast<float>(norm(df));
+                }
+              std::set<std::pair<int, int>> keys;
+              for (auto& kv : exp[i])
+                keys.insert(kv.first);
+              for (auto& kv : got)
+                keys.insert(kv.first);
+              for (auto& c : keys)
+                {
+                  const LoHi E = exp[i].count(c) ? exp[i].at(c) : LoHi();
+                  const double G = got.count(c) ? got.at(c) : 0.;
+                  double cmin = 1, cmax = 1;
+                  if (tof)
+                    {
+                      cmin = 2;
+                      cmax = 0;
+                      for (int z : allz)
+                        {
+                          const double cv = coverage(bin, mid, u, z, c.first, c.second);
+                          cmin = std::min(cmin, cv);
+                          cmax = std::max(cmax, cv);
+                        }
+                    }
+                  lo_tot += E.lo * cmin;
+                  hi_tot += E.hi * cmax;
+                  dev += std::max(0., std::max(E.lo * cmin - G, G - E.hi * cmax));
+                }
+              if (lo_tot > 0.1)
+                ++V.crossing;
+              const double tol = 0.005 * hi_tot + 0.005;
+              const double sdev = std::max(0., std::max(lo_tot - sum, sum - hi_tot - slack[i]));
+              bool bad = false;
+              if (lo_tot > 0.1 && sum == 0)
+                {
+                  ++V.empty;
+                  V.views_with_empty_rows.insert(v);
+                  bad = true;
+                }
+              if (sdev > tol)
+                {
+                  ++V.sum_bad;
+                  bad = true;
+                }
+              V.worst_sum = std::max(V.worst_sum, sdev);
+              if (degen[i])
+                ++V.not_compared;
+              else
+                {
+                  if (dev > tol)
+                    {
+                      ++V.col_bad;
+                      bad = true;
+                    }
+                  V.worst_col = std::max(V.worst_col, dev);
+                }
+              if (bad && V.first.empty())
+                {
+                  double s, phi;
+                  s_phi(seg, v, a, t, s, phi);
+                  std::snprintf(buf, sizeof buf, "first: seg %d view %d ax %d tang %d (s %.4g mm, phi %.4g rad): row sum %.5g, expected %.5g..%.5g (chord .. chord + rest of the end voxels, / (cos theta voxel_size.x)), column deviation %.3g",
+                                seg, v, a, t, s, phi, sum, lo_tot, hi_tot, dev);
+                  V.first = buf;
+                }
+            }
+    return V;
+  }
+};
+
+// the verdicts as oracle lines; returns true if everything is in order
+static bool
+geo_oracle_report(const GeoOracle::Verdict& V, const std::string& which, const std::string& where)
+{
+  char buf[640];
+  std::snprintf(buf, sizeof buf, "ray-tracing matrix (%s): %ld of %ld bins whose LOR crosses the image field of view have an EMPTY row (in %d of the views) %s ",
+                which.c_str(), V.empty, V.crossing, (int)V.views_with_empty_rows.size(), V.first.c_str());
+  oracle(V.empty == 0, std::string(buf) + where);
+  std::snprintf(buf, sizeof buf, "ray-tracing matrix (%s): for %ld of %ld bins the row sum is not between the chord length of the LOR in the field of view and that plus the rest of the two end voxels, / (cos theta voxel_size.x), within 0.5%% (worst %.3g) %s ",
+                which.c_str(), V.sum_bad, V.bins, V.worst_sum, V.first.c_str());
+  oracle(V.sum_bad == 0, std::string(buf) + where);
+  std::snprintf(buf, sizeof buf, "ray-tracing matrix (%s): for %ld of %ld bins the sums over z of the row are not the lengths of the LOR in the voxel columns (end voxels: part of the chord .. full traversal) within 0.5%% (worst %.3g) %s ",
+                which.c_str(), V.col_bad, V.bins - V.not_compared, V.worst_col, V.first.c_str());
+  oracle(V.col_bad == 0, std::string(buf) + where);
+  g_counts["geometry_oracle_rows_of_bins_checked"] += V.bins;
+  g_counts["geometry_oracle_bins_crossing_the_fov"] += V.crossing;
+  g_counts["geometry_oracle_bins_columns_not_compared_ray_along_voxel_boundary"] += V.not_compared;
+  return V.empty == 0 && V.sum_bad == 0 && V.col_bad == 0;
+}
+
 // ------------------------------------------------------------------------------------------------ one matrix setting
 
 struct Piece
@@ -733,6 +1160,14 @@ run_setting(const World& w, const MSet& ms, vh::Rng& rng, bool thorough, int wid
   // informational only (C03's subject; LORs whose end points fall on a voxel boundary legitimately differ)
   g_counts["bins_whose_row_differs_from_the_no_symmetry_row_by_more_than_1e-3"] += row_dev;
   (void)worst_dev;
+  // the rows of the ray-tracing matrix (with the symmetries of this setting, and without any) against the geometry of the
+  // LORs: non-empty where the LOR crosses the field of view, row sum = chord, column sums = 2D lengths
+  if (ms.type == 0)
+    {
+      const GeoOracle geo(w, ms.ntl, ms.cylfov, ms.actual);
+      geo_oracle_report(geo.check(*probe), "rows the projectors use", w.desc + " | " + ms.desc());
+      geo_oracle_report(geo.check(*ref), "rows without symmetries", w.desc + " | " + ms.desc());
+    }
 
   // ---- symmetries as data
   emit("sym", "ok");
@@ -2411,6 +2846,228 @@ run_on_the_fly(const World& w, vh::Rng& rng, bool thorough, bool cylfov)
     }
 }
 
+// ------------------------------------------------------------------------------------------------ FOV x symmetries x rays
+
+static void
+emit_geom(const World& w)
+{
+  std::ostringstream op;
+  op << "geom " << w.minSeg << " " << w.maxSeg << " " << w.minView << " " << w.maxView << " " << w.minT << " " << w.maxT << " " << w.minK
+     << " " << w.maxK;
+  for (int s = w.minSeg; s <= w.maxSeg; ++s)
+    op << " " << w.aMin(s) << "," << w.aMax(s);
+  emit(op.str(), "ok " + std::to_string(w.nbins));
+}
+
+// a small cylindrical world with default index ranges, square voxels, 2 planes per ring (none of the known classes of the
+// on-the-fly projector): N detectors, 2 rings, span 1, all N/2 views, N/2-1 tangential positions
+static void
+make_small_world(World& w, int N, bool tof, int nxy, float frac)
+{
+  w = World();
+  w.tof = tof;
+  const int R = 2;
+  shared_ptr<Scanner> sc = vh::make_scanner(N, R, tof ? 5 : -1);
+  w.pdi = vh::make_pdi(sc, 1, R - 1, N / 2, N / 2 - 1, false, tof ? 1 : 0);
+  const float zoom = sc->get_default_bin_size() * nxy / (2.F * sc->get_inner_ring_radius() * frac);
+  w.image = make_grid(*w.pdi, zoom, zoom, nxy, 2 * R - 1, 0);
+  w.exam.reset(new ExamInfo);
+  w.exam->imaging_modality = ImagingModality::PT;
+  w.image->set_exam_info(*w.exam);
+  w.finish();
+  std::ostringstream d;
+  d << "small cyl N=" << N << " R=" << R << " span=1 views=" << N / 2 << " tang=" << N / 2 - 1 << " tof=" << tof << " nxy=" << nxy
+    << " nz=" << 2 * R - 1 << " voxel=" << w.image->get_voxel_size().x() << " fov fraction " << frac;
+  w.desc = d.str();
+}
+
+// The FULL cross product {cylindrical, square field of view} x {32 combinations of the 5 symmetry flags} x
+// {num_tangential_LORs 1, 2, 3} x {use_actual_detector_boundaries off, on} of ProjMatrixByBinUsingRayTracing on one small
+// world, ALL views:
+//  * every row of every matrix against the geometry (GeoOracle: non-empty, row sum = chord, columns = 2D lengths);
+//  * every row against the row of the matrix without any symmetry (same field of view / rays / boundaries);
+//  * 1 ray, no detector boundaries, non-TOF: forward projection through the matrix = sum over the rows, and = the on-the-fly
+//    ForwardProjectorByBinUsingRayTracing with the same field of view, for every one of the 32 symmetry settings.
+static void
+run_fov_cross_product(const World& w, vh::Rng& rng, bool thorough)
+{
+  char buf[384];
+  const bool legal_actual = actual_boundaries_in_use(w, true);
+  Run R(w, rng);
+  const std::vector<float> x = R.rand_img(0, 4, 15), xs = R.rand_img(-4, 4, 15);
+  shared_ptr<DiscretisedDensity<3, float>> X = w.make_img(x), XS = w.make_img(xs);
+  for (int cyl = 1; cyl >= 0; --cyl)
+    {
+      // on-the-fly projector with this field of view (non-TOF only: it refuses TOF data)
+      shared_ptr<ForwardProjectorByBinUsingRayTracing> otf;
+      std::vector<float> o1, o2;
+      if (!w.tof)
+        {
+          otf.reset(new ForwardProjectorByBinUsingRayTracing);
+          if (!cyl)
+            {
+              std::istringstream is("Forward Projector Using Ray Tracing Parameters :=\nrestrict to cylindrical FOV := 0\n"
+                                    "End Forward Projector Using Ray Tracing Parameters :=\n");
+              if (!otf->parse(is))
+                {
+                  oracle(false, "ForwardProjectorByBinUsingRayTracing does not parse `restrict to cylindrical FOV := 0` " + w.desc);
+                  otf.reset();
+                }
+            }
+          if (otf)
+            {
+              otf->set_up(w.pdi, w.image);
+              ProjDataInMemory A1(w.exam, w.pdi), A2(w.exam, w.pdi);
+              A1.fill(0.F);
+              A2.fill(0.F);
+              otf->forward_project(A1, *X, 0, 1, true);
+              otf->forward_project(A2, *XS, 0, 1, true);
+              o1 = w.read(A1);
+              o2 = w.read(A2);
+            }
+        }
+      for (int ntl = 1; ntl <= 3; ++ntl)
+        for (int actual = 0; actual <= (legal_actual ? 1 : 0); ++actual)
+          {
+            const GeoOracle geo(w, ntl, cyl != 0, actual != 0, /*emit_ops*/ true);
+            MSet ms;
+            ms.type = 0;
+            ms.ntl = ntl;
+            ms.cylfov = cyl != 0;
+            ms.actual = actual != 0;
+            ms.s90 = ms.s180 = ms.sseg = ms.ss = ms.sz = false;
+            // reference: no symmetries at all
+            shared_ptr<ProjMatrixByBin> ref = make_matrix(ms, false, true);
+            ref->set_up(w.pdi, w.image);
+            std::vector<RowT> ref_rows(w.nbins);
+            w.for_bins([&](int s, int v, int k, int a, int t) { ref_rows[w.idx(s, v, k, a, t)] = get_row(*ref, Bin(s, v, a, t, k)); });
+            for (int f = 0; f < 32; ++f)
+              {
+                ms.s90 = f & 1;
+                ms.s180 = f & 2;
+                ms.sseg = f & 4;
+                ms.ss = f & 8;
+                ms.sz = f & 16;
+                const std::string where = w.desc + " | " + ms.desc();
+                shared_ptr<ProjMatrixByBin> pm = make_matrix(ms, false, false);
+                pm->set_up(w.pdi, w.image);
+                g_counts["cross_product_matrices"]++;
+                g_counts[std::string("cross_product_matrices_") + (cyl ? "cylindrical" : "square") + "_fov"
+                         + ((f & 3) == 0 ? "_no_view_symmetry" : "_with_view_symmetry")]++;
+                // (1) against the geometry
+                geo_oracle_report(geo.check(*pm), "every row against the geometry of its LOR", where);
+                // (2) against the rows computed without symmetries
+                long differ = 0, compared = 0;
+                double worst = 0;
+                std::string first;
+                std::vector<RowT> rows(w.nbins);
+                w.for_bins([&](int s, int v, int k, int a, int t) {
+                  const int i = w.idx(s, v, k, a, t);
+                  rows[i] = get_row(*pm, Bin(s, v, a, t, k));
+                  if (geo.degen[w.idx(s, v, w.minK, a, t)])
+                    return;
+                  ++compared;
+                  std::map<std::array<int, 3>, double> m;
+                  double sum = 0, dev = 0;
+                  for (auto& e : ref_rows[i])
+                    {
+                      m[e.first] += e.second;
+                      sum += std::fabs(e.second);
+                    }
+                  for (auto& e : rows[i])
+                    m[e.first] -= e.second;
+                  for (auto& kv : m)
+                    dev += std::fabs(kv.second);
+                  if (dev > 0.02 * sum + 0.02)
+                    {
+                      if (!differ)
+                        {
+                          std::snprintf(buf, sizeof buf, "first: seg %d view %d ax %d tang %d tof %d: %d elements vs %d (sum %.5g) without symmetries, L1 difference %.4g",
+                                        s, v, a, t, k, (int)rows[i].size(), (int)ref_rows[i].size(), sum, dev);
+                          first = buf;
+                        }
+                      ++differ;
+                    }
+                  worst = std::max(worst, dev);
+                });
+                std::snprintf(buf, sizeof buf, "ray-tracing matrix: %ld of %ld rows differ from the rows of the same matrix without symmetries by more than 2%% (worst L1 %.3g) %s ",
+                              differ, compared, worst, first.c_str());
+                oracle(differ == 0, std::string(buf) + where);
+                g_counts["cross_product_rows_compared_with_no_symmetry_rows"] += compared;
+                // (3) forward projection through the matrix = sum over the rows; = on-the-fly projector
+                if (ntl == 1 && !actual && !w.tof)
+                  {
+                    ForwardProjectorByBinUsingProjMatrixByBin fm(pm);
+                    fm.set_up(w.pdi, w.image);
+                    for (int rep = 0; rep < 2; ++rep)
+                      {
+                        const std::vector<float>& xv = rep ? xs : x;
+                        ProjDataInMemory A(w.exam, w.pdi);
+                        A.fill(0.F);
+                        fm.forward_project(A, rep ? *XS : *X, 0, 1, true);
+                        const std::vector<float> am = w.read(A);
+                        long badrow = 0;
+                        double gmax = 0;
+                        std::vector<double> mag(w.nbins, 0.);
+                        for (int b = 0; b < w.nbins; ++b)
+                          {
+                            double val = 0;
+                            for (auto& e : rows[b])
+                              if (e.first[0] >= w.zmin && e.first[0] <= w.zmax)
+                                {
+                                  const double xx = xv[w.lin(e.first[0], e.first[1], e.first[2])];
+                                  val += xx * e.second;
+                                  mag[b] += std::fabs(xx * e.second);
+                                }
+                            gmax = std::max(gmax, mag[b]);
+                            if (std::fabs(am[b] - val) > 4 * EPS * (rows[b].size() + 1) * mag[b])
+                              ++badrow;
+                          }
+                        oracle(badrow == 0, "forward projection through the matrix differs from the sum over its rows for " + std::to_string(badrow) + " bins " + where);
+                        if (!otf)
+                          continue;
+                        const std::vector<float>& ov = rep ? o2 : o1;
+                        long bad = 0, skipped = 0;
+                        std::set<int> bad_views;
+                        double worstd = 0;
+                        for (int s = w.minSeg; s <= w.maxSeg; ++s)
+                          for (int v = w.minView; v <= w.maxView; ++v)
+                            {
+                              double vmax = 0;
+                              for (int a = w.aMin(s); a <= w.aMax(s); ++a)
+                                for (int t = w.minT; t <= w.maxT; ++t)
+                                  vmax = std::max(vmax, (double)std::fabs(am[w.idx(s, v, 0, a, t)]));
+                              const double tol = 1e-4 * std::max(vmax, 0.05 * gmax);
+                              for (int a = w.aMin(s); a <= w.aMax(s); ++a)
+                                for (int t = w.minT; t <= w.maxT; ++t)
+                                  {
+                                    const int b = w.idx(s, v, 0, a, t);
+                                    const double d = std::fabs(double(ov[b]) - am[b]);
+                                    if (d <= tol)
+                                      continue;
+                                    if (lor_end_point_on_voxel_boundary(w, cyl != 0, s, v, a, t))
+                                      {
+                                        ++skipped;
+                                        continue;
+                                      }
+                                    ++bad;
+                                    bad_views.insert(v);
+                                    worstd = std::max(worstd, d);
+                                  }
+                            }
+                        std::snprintf(buf, sizeof buf, "on-the-fly ray tracing forward projector differs from forward projection through the ray-tracing matrix on %ld of %d bins (in %d of %d views, worst %.3g, data max %.3g) ",
+                                      bad, w.nbins, (int)bad_views.size(), w.maxView - w.minView + 1, worstd, gmax);
+                        oracle(bad == 0, std::string(buf) + where);
+                        g_counts["cross_product_otf_comparisons"]++;
+                        g_counts["otf_bins_not_compared_lor_end_point_on_voxel_boundary"] += skipped;
+                      }
+                  }
+              }
+          }
+    }
+  (void)thorough;
+}
+
 // ------------------------------------------------------------------------------------------------ object histories
 
 // One geometry (projection data + image grid) of a history.
@@ -3257,6 +3914,54 @@ main(int argc, char** argv)
       run_on_the_fly(w, rng, thorough, true);
       run_on_the_fly(w, rng, thorough, false);
     }
+  // the full cross product field of view x symmetry flags x rays x detector boundaries on small fixed worlds (non-TOF with
+  // 8 and with 6 views, TOF), and the complete differential + oracles of run_setting for members of it, always including
+  // the square field of view with every view symmetry switched off
+  {
+    static const int nxys[] = { 6, 7, 8, 9 };
+    static const float fracs[] = { 0.7F, 0.85F, 1.F };
+    const int nrep = thorough ? 8 : 1;
+    for (int rep = 0; rep < nrep; ++rep)
+      for (int kind = 0; kind < 3; ++kind)
+        {
+          // kind 0: 16 detectors (8 views, a multiple of 4), 1: 12 detectors (6 views), 2: TOF, 12 detectors
+          World w;
+          try
+            {
+              make_small_world(w, kind == 0 ? 16 : 12, kind == 2, nxys[rng.range(0, 3)], fracs[rng.range(0, 2)]);
+              run_fov_cross_product(w, rng, thorough);
+              g_counts["cross_product_worlds"]++;
+              ++wid;
+              emit_geom(w);
+              const int nsample = thorough ? 4 : 2;
+              for (int si = 0; si < nsample; ++si)
+                {
+                  MSet ms;
+                  ms.type = 0;
+                  ms.ntl = rng.range(1, 3);
+                  ms.s90 = ms.s180 = false; // rows of all views computed directly
+                  ms.sseg = rng.coin();
+                  ms.ss = rng.coin();
+                  ms.sz = rng.coin();
+                  ms.cylfov = false;
+                  ms.actual = false;
+                  if (si > 0)
+                    {
+                      ms.s90 = rng.coin();
+                      ms.s180 = rng.coin();
+                      ms.cylfov = rng.coin();
+                      ms.actual = rng.range(0, 2) == 0;
+                    }
+                  run_setting(w, ms, rng, thorough, wid);
+                  g_counts["cross_product_members_with_full_differential"]++;
+                }
+            }
+          catch (std::exception& e)
+            {
+              oracle(false, std::string("cross product world ") + w.desc + " aborted: " + e.what());
+            }
+        }
+  }
   for (int k = 0; k < (thorough ? 120 : 10); ++k)
     {
       World w;
